@@ -307,3 +307,70 @@ func ZZ_C16_staging() {
 	_ = txn.Rollback()
 	s.wg.Wait()
 }
+
+// ZZ_C16_read_during_flush: reads while a flush is in flight (the flushed generation sits in the
+// buffer being flushed and has not reached the store yet) and after it has landed, through Get and
+// BatchGet in either order: the latest write of the transaction is returned at every moment - also by a
+// Get that follows a BatchGet issued during the flush (the BatchGet cache must not outlive the truth).
+func ZZ_C16_read_during_flush() {
+	zzEngineOnly() // "in flight" is a scheduling fact: the flush goroutine runs when the main goroutine blocks
+	s, cl := zzNewStore([][]byte{[]byte("m")}, 0)
+	defer s.close()
+	k := zzC16Pool[zzChoice("key", len(zzC16Pool))]
+	ctx := context.Background()
+	var want []byte // nil = not found
+	if zzBool("committed-before") {
+		cl.key(k).writes = append(cl.key(k).writes, zzWrite{startTS: 10, commitTS: 20, op: kvrpcpb.Op_Put, value: []byte("v0")})
+		want = []byte("v0")
+	}
+	txn := zzBeginPipelined(s)
+	buf := txn.GetMemBuffer()
+	read := func(label string, viaBatch bool) {
+		var got []byte
+		found := false
+		if viaBatch {
+			m, err := txn.BatchGet(ctx, [][]byte{k})
+			zzAssert(err == nil, "c16.during.batchget-no-error")
+			if e, in := m[string(k)]; in {
+				got, found = e.Value, true
+			}
+		} else {
+			e, err := txn.Get(ctx, k)
+			if err == nil {
+				got, found = e.Value, true
+			}
+		}
+		ok := (want == nil && !found) || (want != nil && found && bytes.Equal(got, want))
+		switch label {
+		case "flying":
+			zzAssert(ok, "c16.during.read-while-flush-in-flight")
+		case "landed":
+			zzAssert(ok, "c16.during.read-after-flush-landed")
+		default:
+			zzAssert(ok, "c16.during.read-after-newer-write")
+		}
+	}
+	// first generation: a value or a delete
+	if zzBool("first-is-delete") {
+		zzAssume(txn.Delete(k) == nil)
+		want = nil
+	} else {
+		want = append(zzBytesN("v1", 1), '1')
+		zzAssume(txn.Set(k, want) == nil)
+	}
+	_, err := buf.Flush(true)
+	zzAssert(err == nil, "c16.during.flush-starts")
+	// the flush goroutine has not run yet: the generation is in the buffer being flushed only
+	firstViaBatch := zzBool("first-read-batch")
+	read("flying", firstViaBatch)
+	if zzBool("write-during-flush") {
+		want = append(zzBytesN("v2", 1), '2')
+		zzAssume(txn.Set(k, want) == nil)
+		read("newer", zzBool("newer-read-batch"))
+	}
+	zzAssert(buf.FlushWait() == nil, "c16.during.flush-lands")
+	read("landed", !firstViaBatch)
+	read("landed", firstViaBatch)
+	_ = txn.Rollback()
+	s.wg.Wait()
+}
